@@ -1,4 +1,6 @@
 import ScriggoV.Lemmas.LinkDest
+import ScriggoV.Lemmas.LinkDestScan
+import ScriggoV.Lemmas.LinkDestUrl
 /-! C29 — rewriting Markdown link destinations changes only link destinations.
 
 What is proved here is the part of the property that is arithmetic on bytes: the splice of
@@ -8,7 +10,7 @@ What is proved here is the part of the property that is arithmetic on bytes: the
 explored with goldmark by the harness (go/props/c29), not proved. Property theorems only;
 lemmas are in `Lemmas/LinkDest.lean`. -/
 namespace ScriggoV.LinkDest
-open ScriggoV.Gen.LinkDestTables
+open ScriggoV.Gen.LinkDestTables ScriggoV.CommonMarkDest
 
 /-! ### applyReplacements -/
 
@@ -130,5 +132,101 @@ theorem not_EscapableIsAsciiPunct : ¬ EscapableIsAsciiPunct := by
 def sampleDest : Bytes := [97, 92, 41, 98, 92, 92, 99, 92, 120, 100, 194, 92]
 example : noNbsp sampleDest = true := by decide
 example : urlEscape sampleDest = [97, 92, 92, 41, 98, 92, 92, 92, 99, 92, 120, 100, 194, 92, 92] := by decide
+
+/-! ### the scanners: indices in bounds, spans that CommonMark accepts
+
+The models return `Option` / `Except Fault`: every Go index and slice is guarded in the model by
+a pattern match on the remaining bytes, so "no fault" is the statement that the only `error` is
+the one documented (`parseTitle` called at or after the end of the line). -/
+
+/-- **parseDestination**, for every line and every start index: the three indices are ordered,
+at or after `pos` and inside the line (so `line[start:stop]` never faults); and the returned
+span is a CommonMark destination for the stated classes — `<…>` form: delimited by `<` and `>`,
+and, if the span has no line ending and no `<` (`noLtEol`), it is an `angleBody`; bare form: not
+empty, and, if the span has no control characters (`noCtl`) and the loop stopped with all
+parentheses closed (`plainEndDepth … = 0`), it is a `bareDest` (no space, balanced or escaped
+parentheses, does not start with `<`). -/
+theorem parseDestination_sound (line : Bytes) (pos a b e : Nat)
+    (h : parseDestination line pos = some (a, b, e)) :
+    pos ≤ a ∧ a ≤ b ∧ b ≤ e ∧ e ≤ line.length ∧
+    ((e = b + 1 ∧ 1 ≤ a ∧ line[a - 1]? = some 60 ∧ line[b]? = some 62 ∧
+        (noLtEol ((line.drop a).take (b - a)) = true →
+          angleBody false ((line.drop a).take (b - a)) = true)) ∨
+     (e = b ∧ a < b ∧
+        (noCtl ((line.drop a).take (b - a)) = true → plainEndDepth false 0 (line.drop a) = 0 →
+          bareDest ((line.drop a).take (b - a)) = true))) :=
+  parseDestination_spec line pos a b e h
+
+/-- **parseTitle**, for every line and every index: it faults (index out of range, on
+`line[pos]`) exactly when `pos` is not inside the line; otherwise it returns, and a returned end
+index is inside the line and after the opener and the closer -/
+theorem parseTitle_bounds (line : Bytes) (pos : Nat) :
+    (line.length ≤ pos → parseTitle line pos = .error .index) ∧
+    (pos < line.length → ∃ r, parseTitle line pos = .ok r ∧
+        ∀ e, r = some e → pos + 2 ≤ e ∧ e ≤ line.length) :=
+  parseTitle_spec line pos
+
+/-- **findLabelEnd**, for every line and every index: a returned index is inside the line, at
+or after `pos`, holds a `]`, and the bytes before it have no unescaped bracket (the bracket
+balance of a link label) -/
+theorem findLabelEnd_sound (line : Bytes) (pos e : Nat) (h : findLabelEnd line pos = some e) :
+    pos ≤ e ∧ e < line.length ∧ line[e]? = some 93 ∧
+      noBareBracket false ((line.drop pos).take (e - pos)) = true :=
+  findLabelEnd_spec line pos e h
+
+-- non-vacuity: `  <a\>b> x` from 0 gives the span `a\>b`; `a(b\))c d` the span `a(b\))c`
+example : parseDestination [32, 32, 60, 97, 92, 62, 98, 62, 32, 120] 0 = some (3, 7, 8) := by decide
+example : parseDestination [97, 40, 98, 92, 41, 41, 99, 32, 100] 0 = some (0, 7, 7) := by decide
+example : bareDest [97, 40, 98, 92, 41, 41, 99] = true := by decide
+example : findLabelEnd [97, 92, 93, 98, 93] 0 = some 4 := by decide
+
+/-! ### which destinations are rewritten, with net/url as a parameter -/
+
+/-- **`rewritten_is_absolute`**: under the laws assumed of net/url (`UrlLaws`: a parsed URL
+given the base's scheme and relocated, printed and parsed again, has the base's scheme),
+every text `appendReplacement` writes — when it contains no U+00A0, the
+case in which the unescaping does not undo the escaping — reads back (unescape, parse) as a URL
+with the base's scheme. -/
+theorem rewritten_is_absolute (L : UrlLib) (b : Bytes) (laws : UrlLaws L b) (dest t : Bytes)
+    (h : appendDecision L b dest = some t) (hn : noNbsp t = true) :
+    ∃ w, L.parse (mdUnescape t) = some w ∧ w.scheme = b := by
+  obtain ⟨u, _, _, ht⟩ := appendDecision_some h
+  rw [ht] at hn ⊢
+  have := unesc_escape _ (noNbsp_of_urlEscape _ hn)
+  unfold mdUnescape
+  rw [this]
+  exact laws.relocated_reads_back u
+
+/-- **`idempotent`** (per destination): a destination that was rewritten is left alone by a
+second pass — it is absolute. With `rewrite_nothing_is_identity`: if the scanner finds the
+same spans in the output, the second pass selects no replacement and returns the document as
+it is. -/
+theorem idempotent_destination (L : UrlLib) (b : Bytes) (laws : UrlLaws L b) (dest t : Bytes) (hb : b ≠ [])
+    (h : appendDecision L b dest = some t) (hn : noNbsp t = true) :
+    appendDecision L b t = none := by
+  obtain ⟨w, hw, hws⟩ := rewritten_is_absolute L b laws dest t h hn
+  unfold appendDecision
+  rw [hw]
+  have : w.scheme.isEmpty = false := by
+    rw [hws]; cases b with
+    | nil => exact absurd rfl hb
+    | cons _ _ => rfl
+  simp [this]
+
+-- non-vacuity: the laws are satisfiable — a toy library in which the scheme is what precedes
+-- the first `:` — and with it the relative destination `x` is rewritten to `https:x`, which a
+-- second pass leaves alone
+def toyHasColon : Bytes → Bool
+  | [] => false
+  | c :: rest => c == 58 || toyHasColon rest
+def toyLib : UrlLib where
+  parse s := some ⟨if toyHasColon s then s.takeWhile (· != 58) else [], [], s, []⟩
+  str u := u.scheme ++ 58 :: u.path
+  relocate u := u
+def https : Bytes := [104, 116, 116, 112, 115]
+example : UrlLaws toyLib https :=
+  ⟨fun u => ⟨_, rfl, by simp [toyLib, https, toyHasColon]⟩⟩
+example : appendDecision toyLib https [120] = some (https ++ [58, 120]) := by decide
+example : appendDecision toyLib https (https ++ [58, 120]) = none := by decide
 
 end ScriggoV.LinkDest
